@@ -66,6 +66,14 @@ def verdicts (g : Guards) (txn pipe : Bool) : List (List PutEv) → List Bool
   | [] => []
   | f :: fs => if flushAck g txn pipe f = true then true :: verdicts g txn pipe fs else [false]
 
+/-- flushes of ONE client that are transactional or not flush by flush (the sender's keepalive ping is a plain flush on a
+    transactional client): `cluster.transactionEnable` / `transactionNode` are fields of the client, switched on by
+    Put("multi") and off by Put("exec"), which the sender puts last in every transactional flush - so nothing of one
+    flush is left for the next: every flush starts from `{}` with its own flag -/
+def verdictsM (g : Guards) (pipe : Bool) : List (Bool × List PutEv) → List Bool
+  | [] => []
+  | (txn, f) :: fs => if flushAck g txn pipe f = true then true :: verdictsM g pipe fs else [false]
+
 /-- `sendFuncOnce` around the batcher: `none` = "nothing to send" (nil, the queue is KEPT and put again with
     the next flush, the in-memory position moves); `some true` = acknowledged, queue dropped; `some false`
     = reported. `chk` = the empty-batcher shortcut reports a recorded Put error (session-5 repair). -/
